@@ -506,6 +506,27 @@ std::vector<Workload> CuratedWorkloads() {
       }
     }
   }
+  // Single-component unsigned integer attributes (wrap transform bounds that
+  // are small positive numbers; descriptor bytes of a scalar attribute).
+  for (int k = 0; k < 4; ++k) {
+    Workload w;
+    w.kind = k < 2 ? 0 : 1;
+    w.topo = 0;
+    w.n = 10 + k;
+    w.gseed = ++gs;
+    AttDesc pos;
+    w.atts.push_back(pos);
+    AttDesc g;
+    g.type = draco::GeometryAttribute::GENERIC;
+    g.dt = (k % 2) ? draco::DT_UINT32 : draco::DT_UINT16;
+    g.nc = 1;
+    g.mode = 0;
+    w.atts.push_back(g);
+    w.method = k < 2 ? (k % 2) : 0;
+    w.qb[0] = 10;
+    w.espeed = w.dspeed = 3 + k;
+    out.push_back(w);
+  }
   // Point clouds.
   for (int method = 0; method < 2; ++method) {
     for (int quant = 0; quant < 2; ++quant) {
@@ -633,7 +654,9 @@ Tier TierConfig(const std::string &tier) {
     t.tamper_max_events = 1500;
     t.tamper_sample = 400;
     t.corpus_max_len = 16384;
-    t.budget_bytes = 16ull << 20;
+    // Above A2 + K2*U of a small stream, so that a creeping live peak reaches
+    // the C18 bound before the budget refuses it.
+    t.budget_bytes = 40ull << 20;
     t.step_min = 10000000ull;
     t.step_mult = 500;
     t.step_cap = 200000000ull;
